@@ -33,3 +33,31 @@ add("C05", "exploration",
     "the futures' results at every quiescent point. distinct = distinct abstract trace shapes (per-op kind/acceptance/ack state/result class + wire packet type sequence).",
     {"quick": ["checked"], "thorough": ["checked", "fast"]},
     {"quick": {"op_results_matched_to_their_ack": 5000, "op_pending_checked": 5000}, "thorough": {"op_results_matched_to_their_ack": 500000}})
+
+add("C06", "exploration",
+    "structured sweep (QoS x every legal PUBACK/PUBREC/PUBCOMP reason code x short/full form x late polling of the QoS 2 future x companion traffic) plus "
+    "bounded-exhaustive interleavings and PRNG walks; the wire trace is decoded by the reference decoder and checked against the handshake rules "
+    "(one PUBLISH, DUP=0, id, exactly one PUBREL only after a successful PUBREC, none after a failing one) and publish() results against the reason codes. "
+    "distinct = distinct (parameters, abstract trace shape).",
+    {"quick": ["checked"], "thorough": ["checked", "fast"]},
+    {"quick": {"op_results_matched_to_their_ack": 3000, "sweep_cases": 800}, "thorough": {"op_results_matched_to_their_ack": 300000}})
+
+add("C07", "exploration",
+    "bounded-exhaustive interleavings of subscribe calls, SUBACKs, inbound PUBLISH packets (registered / other stream / both / never-registered / absent subscription identifier, QoS 0/1/2), "
+    "stream take / hold / release / drop, unsubscribe and cancelled subscribe futures, plus PRNG walks with up to 12 subscriptions and identifiers at the variable-byte-integer steps; "
+    "per subscribe() call the yielded items (all accessor values) are compared with the model's expected sequence. distinct = distinct abstract trace shapes.",
+    {"quick": ["checked"], "thorough": ["checked", "fast"]},
+    {"quick": {"stream_items_checked": 5000, "inbound_publishes": 5000}, "thorough": {"stream_items_checked": 500000}})
+
+add("C09", "exploration",
+    "all sequences (bounded-exhaustive) over PUBLISH(QoS 2, id, DUP) / PUBREL(id) for three identifiers, plus PRNG walks interleaved with other traffic; the model keeps the set of "
+    "QoS 2 identifiers answered with PUBREC and not yet released and predicts exactly which deliveries reach the stream. distinct = distinct (sequence, trace shape).",
+    {"quick": ["checked"], "thorough": ["checked", "fast"]},
+    {"quick": {"qos2_redeliveries": 5000, "stream_items_checked": 5000}, "thorough": {"qos2_redeliveries": 500000}})
+
+add("C10", "exploration",
+    "Receive Maximum R in {1,2,3}: all histories up to the depth bound over publishes and acknowledgements (success and failure, any outstanding one), with the quota model compared at every step, "
+    "hook H3 snapshots checked for `internal quota + outstanding = R` and `quota <= R`, and an end-of-script probe counting how many further publishes are accepted; "
+    "R in {5,255,256,1000,65535,absent}: fill-to-the-limit runs and long random histories. distinct = distinct (R, abstract trace shape).",
+    {"quick": ["checked", "fast"], "thorough": ["checked", "fast"]},
+    {"quick": {"quota_refusals_seen": 2000, "slot_releases": 2000, "quota_probes": 1000}, "thorough": {"quota_refusals_seen": 100000}})
